@@ -25,8 +25,9 @@ Definition w_D13c : cstmts :=
   SCons (SDecl [TS_intN true 8] "a" (Some (EOp (OReg "R" "s"))))
  (SCons (SDecl [TS_intN false 8] "b" (Some (EOp (OReg "R" "t"))))
  (SCons (SExpr (EAssign AAssign (EOp (OReg "R" "d")) (ECond (EOp (OReg "R" "u")) (EOp (OIdent "a")) (EOp (OIdent "b"))))) SNil)).
-Theorem C03_refuted_ternary_arms : exists seed, mistranslated w_D13c seed.
-Proof. exists 32. left. vm_compute. reflexivity. Qed.
+(* FIXED in /repo (fix: integer promotion of comparison and ?: operands) *)
+Example C03_fixed_ternary_arms : forallb (fun s => match verdict_of (cfg_insn 0) w_D13c s with Some Agree => true | _ => false end) [32; 33; 34; 35; 46; 74] = true.
+Proof. vm_compute. reflexivity. Qed.
 
 Theorem C03_refuted : ~ C03_statement.
 Proof. apply (refute _ w_D3 32 I). exact C03_refuted_widening_fill. Qed.
